@@ -34,6 +34,7 @@ FIELD_SORTS: dict[str, tuple[tuple, object]] = {
     "elems": ((Ref,), RSeq),            # contents of a list object
     "setmem": ((Ref, Ref), Bool),       # membership of a set object
     "dmem": ((Ref, Ref), Bool),         # keys of a dict object keyed by references
+    "dkeys": ((Ref,), RSeq),            # keys of a dict object in insertion order (dict used as an ordered set)
     # dynamic instance attributes (attributes=, setattr, temporaries)
     "dyn_has": ((Ref, Str), Bool),
     "dyn_val": ((Ref, Str), Ref),
@@ -84,8 +85,10 @@ class State:
     def copy(self) -> "State":
         s = State(self.tag, self.fields)
         s.table = self.table
+        s.defaults = self.defaults
         return s
 
+    defaults = None   # closed-world defaults of the concrete tables (e.g. memo_has -> False)
     table = None      # concrete base values (run-time monitor): (field, ids of the address constants) -> literal term
 
     def read(self, name, *addr):
@@ -93,6 +96,9 @@ class State:
         if self.table is not None:
             addr = tuple(a if (z3.is_const(a) or z3.is_int_value(a) or z3.is_string_value(a)) else z3.simplify(a) for a in addr)
             lit = self.table.get((name,) + tuple(_akey(a) for a in addr))
+            if lit is None and self.defaults and name in self.defaults and all(
+                    z3.is_int_value(a) or z3.is_string_value(a) or a.get_id() in T.CONCRETE for a in addr):
+                lit = self.defaults[name]          # closed world: no entry for a concrete key means absent
             if lit is not None:
                 r = lit
                 for u in fs.updates:
